@@ -85,6 +85,19 @@ def check_case(ctx, cs, precision=None, binsearch=False):
         raise core.MachineryError("unknown op " + op)
     if same_def(project(obj), sh) or project(obj) != before:
         ctx.violate("operations.%s" % op, tg + ["input_modified"], small, {"field": same_def(project(obj), sh)})
+    else:
+        # ... and neither are the views its getters report (a fresh twin of the same definition is the reference)
+        from ..histories import read_view
+        tw = build(sh) if precision is None else build(sh, precision=precision)
+        for v in ["ctrlpts"] + (["weights", "ctrlptsw"] if sh["rat"] else []) + (["ctrlpts2d"] if pd == 2 else []):
+            try:
+                a, b = read_view(obj, v), read_view(tw, v)
+            except Exception as e:
+                ctx.violate("operations.%s" % op, tg + ["input_modified", "view=" + v, "raises"], small, {"exception": repr(e)[:200]})
+                break
+            if not core.close_seq(a, b):
+                ctx.violate("operations.%s" % op, tg + ["input_modified", "view=" + v], small, {"n_reported": len(a), "n_expected": len(b)})
+                break
 
 
 THEOREMS = ["T_Split: both pieces coincide with the original under the affine map of their domain (exact, deg+1 samples per span)",
